@@ -1,6 +1,6 @@
 #!/bin/bash
 # Runs every registered quick check on the current tree, in sequence; prints one line per check.
-cd /verif
+cd "$(dirname "$0")/.."
 for p in $(python3 -c "import json;print(' '.join(c['property_id'] for c in json.load(open('MANIFEST.json'))['checks']))"); do
   out=$(./check $p --tier ${1:-quick} 2>&1 | grep -E '^(OK|VIOLATION|KNOWN)' | head -3 | tr '\n' ' ')
   echo "$p: $out"
